@@ -53,10 +53,24 @@ RANDOM_OPTS = {
     'maxops_script': 4, 'targets': [None, '*'], 'p_script': 0.9,
     'hist_ops': ['fire', 'fire', 'flush', 'tick'], 'histlen': (2, 6), 'ext_names': 2, 'p_attach': 1.0,
     'p_raise_base': 0.3, 'p_noevent': 0.15, 'p_feedback_ch': 0.3,
+    # 77: a result that is itself a list
+    'more_values': [77, 77],
 }
 
 
+def list_cases():
+    """a handler result that is itself a list, alone, before and after other results, from plain and generator handlers"""
+    for order, gen in [(o, g) for o in ((77,), (77, 3), (3, 77), (77, 77), (77, 3, 4), (3, 77, 4)) for g in (False, True)]:
+        handlers = {}
+        for i, v in enumerate(order, 1):
+            script = [['yield', v]] if gen else [['ret', v]]
+            handlers[str(i)] = _h(1, ['x0'], 3 - i, {'x0': script})
+        prog = {'comps': {'1': {'chan': 'a'}}, 'handlers': handlers, 'dyn': []}
+        yield prog, [['fire', 1, {'name': 'x0', 'prio': 0, 'flags': 1, 'ch': None}]] + [['tick', 1]] * 4
+
+
 def gen_random(rnd, quick):
+    yield from list_cases()
     for i in range(400 if quick else 8000):
         prog = kernelgen.gen_program(rnd, RANDOM_OPTS)
         yield prog, kernelgen.gen_history(rnd, RANDOM_OPTS, prog)
